@@ -245,9 +245,10 @@ PROPS["C15"] = {
     "plan": zb_plan(("release", "tsan", "miri"), miri_scale=0.0),
     "rule": ("storms of 2/4/8/16 OS threads x 6000 (20000 thorough) message builds through three construction paths sharing the "
              "process-wide counter, half of them started (through the cfg(zbus_verif) hook) shortly before the 32-bit wrap so that it "
-             "happens mid-storm, plus the exact single-thread boundary sequence, plus a zero-crossing hammer (4-8 persistent threads released together by a spin "
-             "gate 4000 times per shard (40000 thorough), each taking 3 serials, with the counter set to 0, MAX or just below it, so that the skip-zero step "
-             "runs under full contention every round); all serials non-zero, pairwise distinct, and the "
+             "happens mid-storm, plus the exact single-thread boundary sequence, plus a zero-crossing hammer (3-4 persistent threads in each of two shards released together by a two-stage spin "
+             "gate, each taking 3 serials, with the counter set to 0, MAX or just below it, so that the skip-zero step runs under contention; "
+             "adaptive: batches of 10000 rounds until >= 30000 rounds (400000 thorough) AND >= 4000 (40000) rounds with interleaved threads per shard were "
+             "observed, caps 6e6 rounds / 600 s (12e6 / 1800 s)); all serials non-zero, pairwise distinct, and the "
              "multiset exactly the contiguous range from the starting counter value skipping zero; distinct = distinct (storm shape, "
              "number of adjacent serials owned by different threads)"),
     "gates": {"quick": {"evaluations": 25, "serials_observed": 500000, "interleaving_switches": 10000, "distinct": 10,
